@@ -87,3 +87,113 @@ def model_real(model, name, default=None):
     return parse(v)
   except Exception:
     return default
+
+
+# ------------------------------------------------------------------------------------------------
+# IEEE floats with the non-finite values (tagged reals, DESIGN.md 1.3)
+
+class FloatVal(Model):
+  """kind: 0 finite (value r), 1 nan, 2 +inf, 3 -inf"""
+  def __init__(self, kind, r):
+    self.kind = kind
+    self.r = r
+
+  @staticmethod
+  def fresh(ctx, hint='f', finite=False):
+    k = ctx.fresh(z3.IntSort(), hint + '.kind')
+    r = ctx.fresh(z3.RealSort(), hint)
+    ctx.assume(z3.And(k >= 0, k <= 3))
+    if finite:
+      ctx.assume(k == 0)
+    return FloatVal(k, r)
+
+  @staticmethod
+  def of(v):
+    from pyvc.values import znum, Inf
+    if isinstance(v, FloatVal):
+      return v
+    if isinstance(v, Inf):
+      return FloatVal(z3.IntVal(2 if v.sign > 0 else 3), z3.RealVal(0))
+    v = znum(v)
+    if z3.is_int(v):
+      v = z3.ToReal(v)
+    return FloatVal(z3.IntVal(0), v)
+
+  def is_nan(self):
+    return self.kind == 1
+
+  def is_finite(self):
+    return self.kind == 0
+
+  def same(self, o):
+    """bit-for-bit identity as far as the tagged encoding distinguishes (nan == nan here)"""
+    o = FloatVal.of(o)
+    return z3.And(self.kind == o.kind, z3.Implies(self.kind == 0, self.r == o.r))
+
+  def py___eq__(self, ip, o):
+    try:
+      o = FloatVal.of(o)
+    except Exception:
+      return False
+    return z3.Or(z3.And(self.kind == 0, o.kind == 0, self.r == o.r),
+                 z3.And(self.kind == 2, o.kind == 2), z3.And(self.kind == 3, o.kind == 3))
+
+  def py___float__(self, ip):
+    return self
+
+  def is_float(self, ip):
+    return True
+
+  def py___int__(self, ip):
+    if ip.ctx.branch(self.kind == 1, 'int(nan)'):
+      raise PyRaise(ExcVal('ValueError', ('cannot convert float NaN to integer',)))
+    if ip.ctx.branch(self.kind >= 2, 'int(inf)'):
+      raise PyRaise(ExcVal('OverflowError', ('cannot convert float infinity to integer',)))
+    return z3.If(self.r >= 0, z3.ToInt(self.r), -z3.ToInt(-self.r))
+
+  def py_binop(self, ip, op, other, reflected):
+    import ast
+    o = other
+    okind = o.kind if isinstance(o, FloatVal) else z3.IntVal(0)
+    if ip.ctx.branch(z3.And(self.kind == 0, okind == 0), 'floats finite'):
+      a, b = (other, self.r) if reflected else (self.r, other)
+      if isinstance(a, FloatVal):
+        a = a.r
+      if isinstance(b, FloatVal):
+        b = b.r
+      from pyvc.values import znum
+      a, b = znum(a), znum(b)
+      if z3.is_int(a):
+        a = z3.ToReal(a)
+      if z3.is_int(b):
+        b = z3.ToReal(b)
+      return FloatVal(z3.IntVal(0), ip.binop(op, a, b))
+    # a non-finite operand: // and % give nan; + - * give some non-finite value
+    if isinstance(op, (ast.FloorDiv, ast.Mod)):
+      return FloatVal(z3.IntVal(1), z3.RealVal(0))
+    k = ip.ctx.fresh(z3.IntSort(), 'nonfinite.kind')
+    ip.ctx.assume(z3.And(k >= 1, k <= 3))
+    return FloatVal(k, z3.RealVal(0))
+
+  def py_compare(self, ip, op, other, reflected):
+    import ast
+    o = FloatVal.of(other)
+    a, b = (o, self) if reflected else (self, o)
+    fin = z3.And(a.kind == 0, b.kind == 0)
+    t = type(op)
+    # ordering with nan is False; inf handled by rank
+    def rank(x):
+      return z3.If(x.kind == 3, z3.RealVal(-1), z3.If(x.kind == 2, z3.RealVal(1), z3.RealVal(0)))
+    nonan = z3.And(a.kind != 1, b.kind != 1)
+    lt = z3.And(nonan, z3.Or(z3.And(fin, a.r < b.r), z3.And(z3.Not(fin), rank(a) < rank(b))))
+    eq = z3.And(nonan, z3.Or(z3.And(fin, a.r == b.r), z3.And(z3.Not(fin), a.kind == b.kind)))
+    if t is ast.Lt:
+      return lt
+    if t is ast.LtE:
+      return z3.Or(lt, eq)
+    if t is ast.Gt:
+      return z3.And(nonan, z3.Not(lt), z3.Not(eq))
+    if t is ast.GtE:
+      return z3.And(nonan, z3.Not(lt))
+    from pyvc.core import EngineError
+    raise EngineError("float compare")
